@@ -25,7 +25,7 @@ def run_program(prog: dict) -> list[dict]:
     events = []
     for step, op in enumerate(prog["prog"]):
         preL, preT = loaders.project(L), loaders.project_mol(T)
-        res, obs, groups, groups2, err, _ = loaders.execute(op, L, T, seed=prog.get("seed", 0) + step)
+        res, obs, groups, groups2, err, extra = loaders.execute(op, L, T, seed=prog.get("seed", 0) + step)
         out = dict(
             L=loaders.project(L),
             T=loaders.project_mol(T),
@@ -34,6 +34,8 @@ def run_program(prog: dict) -> list[dict]:
             groups=groups,
             groups2=groups2,
             err=err,
+            codes=extra["codes"],
+            avg_n=extra["avg_n"],
         )
         events.append(dict(id=f"{prog['pid']}:{step}", op=op, L=preL, T=preT, out=out))
         if not err and res is not None and op["name"] in ("derive", "add_tomogram"):
